@@ -616,4 +616,4 @@ def run(tier, t0):
     res.assumptions += ['that frames, registers and names come out right for a given stack is behavioural: a fault inside a technique\'s arithmetic is invisible to these rules']
     return harness.finish(res, tier, t0, distinct=9, explanation=(
         'Narrow claim: necessary structural conditions of correct walking. Technique priority and retry discipline in each architecture, technique labels, MIR-level equality of the arm64 / arm64_old twins modulo the context type, '
-        'existence and canonical spelling of every register name the unwinders insert into or test against validity sets (two alias defects found this way were repaired in /repo), and the documented scan windows read from MIR constants.'))
+        'existence and canonical spelling of every register name the unwinders insert into or test against validity sets (two alias defects found this way were repaired in /repo), the documented scan windows read from MIR constants, the FPO formula table, the pointer-authentication mask, the walker handed to the symbol file, the MIPS ABI dispatch, the amd64 probe, and the OS preconditions of the frame-pointer techniques decided per variant of enum Os.'))
